@@ -45,13 +45,15 @@ RULE = (
     "elfSymbolVersions configuration, deletion requests with force modes); families 'one' (full subset lattice "
     "of all places for one deleted symbol), 'pair' (full product of grouped place subsets for two deleted "
     "symbols), 'ver' (full product of version modes x id sharing x base flags x deleted set), 'count' (0..3 "
-    "symbols deleted, everything placed everywhere) are each enumerated completely by mixed-radix index; "
+    "symbols deleted, everything placed everywhere), 'rt' (deletion requests combined, in either registration order, with "
+    "retarget_symbol_uses requests of the same context: S1->K, S1->S2, S1->K+S2->K; expectation from the module a context with "
+    "only the retargets leaves) are each enumerated completely by mixed-radix index; "
     "distinct = distinct case descriptors; non-trivial = at least one deleted symbol occurs in at least one place"
 )
 ASSUMPTIONS = [
     "bounded: 3 named symbols (+ private helper symbols for symbolForwarding partners), x86-64 only, one entry per "
-    "symbol and table, one code and one data expression per symbol; no other modification is registered in the same "
-    "apply(), so 'expressions still use it' is decided by the input module",
+    "symbol and table, one code and one data expression per symbol; apart from the 'rt' family no other modification is "
+    "registered in the same apply(), so 'expressions still use it' is decided by the input module",
     "gtirb (containers, protobuf codec) and gtirb_test_helpers are trusted; the 'before' snapshot is read back from the "
     "built IR through gtirb, the expectation is computed on that snapshot",
     "only the tables named in the statement are populated with symbol references; every table (module and IR level) is "
@@ -772,12 +774,28 @@ def run_case(case):
     dnames = tuple(sorted(deleted))
 
     ctx = gtirb_rewriting.RewritingContext(m, [])
+    if case.get("rt"):
+        # the same context also retargets uses: "still use it" is decided at the end of rewriting, i.e. on the module a
+        # context with only the retarget requests leaves (differential baseline; what a retarget does is C18's subject)
+        wb = build(case)
+        cb = gtirb_rewriting.RewritingContext(wb.m, [])
+        for a, b in case["rt"]:
+            cb.retarget_symbol_uses(wb.sym[a], wb.sym[b])
+        cb.apply()
+        before = snapshot(wb.ir, wb.m, wb.names)
+        rt_first = case.get("rt_first", 1)
+        if rt_first:
+            for a, b in case["rt"]:
+                ctx.retarget_symbol_uses(w.sym[a], w.sym[b])
     for n in order:
         for f in REQUESTS[req[n]]:
             if f is None:
                 ctx.delete_symbol(w.sym[n])
             else:
                 ctx.delete_symbol(w.sym[n], force=f)
+    if case.get("rt") and not case.get("rt_first", 1):
+        for a, b in case["rt"]:
+            ctx.retarget_symbol_uses(w.sym[a], w.sym[b])
     exc = None
     try:
         ctx.apply()
@@ -999,7 +1017,35 @@ def make_count(name, ch):
     return _with_ver(case)
 
 
-FAMILIES = {"one": (fam_one, make_one), "pair": (fam_pair, make_pair), "ver": (fam_ver, make_ver), "count": (fam_count, make_count)}
+def fam_rt(tier):
+    th = tier == "thorough"
+    out = []
+    for fmt in ("ELF", "PE"):
+        m5 = list(range(32))
+        rts = [(("S1", "K"),), (("S1", "S2"),), (("S1", "K"), ("S2", "K"))]
+        reqs = [("F", None), ("T", None), ("F", "T"), ("F", "F")] + ([("TF", "F"), ("T", "T")] if th else [])
+        out.append(("rt5/" + fmt, [m5, m5 if th else [0, 31], KFULL if th else [("full", 0)], rts, reqs, [1, 0]]))
+    return out
+
+
+def make_rt(name, ch):
+    fmt = name.split("/")[1]
+    m1, m2, (kprof, share), rt, (r1, r2), first = ch
+    G = GROUPS[(fmt, 5)]
+
+    def places(mask):
+        return [p for i, grp in enumerate(G) if mask >> i & 1 for p in grp]
+
+    s1 = places(m1)
+    k = {"none": [], "same": list(s1), "full": list(PLACES[fmt])}[kprof]
+    req = {"S1": r1}
+    if r2 is not None:
+        req["S2"] = r2
+    return _with_ver({"fam": "rt", "fmt": fmt, "pl": {"S1": s1, "S2": places(m2), "K": k}, "share": share, "req": req, "ref": 0,
+                      "rt": [list(x) for x in rt], "rt_first": first})
+
+
+FAMILIES = {"one": (fam_one, make_one), "pair": (fam_pair, make_pair), "ver": (fam_ver, make_ver), "count": (fam_count, make_count), "rt": (fam_rt, make_rt)}
 CHUNK = {"quick": 1024, "thorough": 8192}
 
 
